@@ -9,6 +9,7 @@
 //! 2 harness error.
 
 mod c11;
+mod capped;
 mod c12;
 mod c13;
 mod choice;
@@ -22,6 +23,9 @@ use serde_json::{json, Value};
 use std::sync::OnceLock;
 
 const DEFAULT_SEED: u64 = 20261002;
+
+#[global_allocator]
+static ALLOC: capped::Capped = capped::Capped;
 
 static PROPS: OnceLock<Vec<Property>> = OnceLock::new();
 
